@@ -26,7 +26,7 @@
 
 #define MAXT 16
 #define NOPS 40
-#define NKINDS 16
+#define NKINDS 22
 #define OUTSZ 96
 
 /* shared, read-only after set-up */
@@ -71,14 +71,28 @@ static void do_op(const op_t *o, uint8_t out[OUTSZ], int tid)
         ascon128a_aead_start(&st, ad, adlen); ascon128a_aead_encrypt_block(&st, m, buf, mlen); ascon128a_aead_encrypt_finalize(&st, buf + mlen);
         ascon128a_aead_start(&st, 0, 0); ascon128a_aead_encrypt_block(&st, m, buf + 16, mlen / 2); ascon128a_aead_encrypt_finalize(&st, buf + 16 + mlen / 2);
         ascon128a_aead_free(&st); clen = mlen + 16; break; }
-    case 14: { /* decrypt with the shared masked key and a shared ISAP key */
-        uint8_t c[600 + 16], p[600]; size_t l = 0, l2 = 0; int r1, r2;
-        ascon128a_masked_aead_encrypt(c, &l, m, mlen, ad, adlen, sh_nonce, &sh_mk128);
-        r1 = ascon128a_masked_aead_decrypt(p, &l2, c, l, ad, adlen, sh_nonce, &sh_mk128);
-        memcpy(buf, c, l);
-        ascon128a_isap_aead_encrypt(c, &l, m, mlen, ad, adlen, sh_nonce, &sh_isap128a);
-        r2 = ascon128a_isap_aead_decrypt(p, &l2, c, l, ad, adlen, sh_nonce, &sh_isap128a);
-        buf[0] ^= (uint8_t)(r1 | r2); clen = l; break; }
+#define MDEC(P, KEY) { uint8_t c[600 + 16], p[600]; size_t l = 0, l2 = 0; int r1, r2; \
+        P##_masked_aead_encrypt(c, &l, m, mlen, ad, adlen, sh_nonce, KEY); \
+        r1 = P##_masked_aead_decrypt(p, &l2, c, l, ad, adlen, sh_nonce, KEY); \
+        memcpy(buf, c, l); buf[0] ^= (uint8_t)r1; \
+        c[l - 1 - (o->off % 16)] ^= 0x04;                    /* forged packet through the same shared key */ \
+        r2 = P##_masked_aead_decrypt(p, &l2, c, l, ad, adlen, sh_nonce, KEY); \
+        buf[1] ^= (uint8_t)(r2 < 0 ? 0x55 : 0xAA); clen = l; break; }
+    case 14: MDEC(ascon128, &sh_mk128)
+    case 15: MDEC(ascon128a, &sh_mk128)
+    case 16: MDEC(ascon80pq, &sh_mk160)
+#define IDEC(P, KEY) { uint8_t c[600 + 16], p[600]; size_t l = 0, l2 = 0; int r1, r2; \
+        P##_isap_aead_encrypt(c, &l, m, mlen, ad, adlen, sh_nonce, KEY); \
+        r1 = P##_isap_aead_decrypt(p, &l2, c, l, ad, adlen, sh_nonce, KEY); \
+        memcpy(buf, c, l); buf[0] ^= (uint8_t)r1; \
+        c[o->off % l] ^= 0x40; \
+        r2 = P##_isap_aead_decrypt(p, &l2, c, l, ad, adlen, sh_nonce, KEY); \
+        buf[1] ^= (uint8_t)(r2 < 0 ? 0x55 : 0xAA); clen = l; break; }
+    case 17: IDEC(ascon128, &sh_isap128)
+    case 18: IDEC(ascon128a, &sh_isap128a)
+    case 19: IDEC(ascon80pq, &sh_isap80pq)
+    case 20: { /* key extraction from the shared masked keys must keep returning the key */
+        ascon_masked_key_128_extract(&sh_mk128, buf); ascon_masked_key_160_extract(&sh_mk160, buf + 16); clen = 36; break; }
     default: { /* the global PRNG and a per-thread PRNG object: output is random, only the call is exercised */
         ascon_random_state_t rs; uint8_t rnd[48];
         ascon_random(rnd, 48); ascon_random_init(&rs); ascon_random_fetch(&rs, rnd, 32); ascon_random_feed(&rs, m, mlen); ascon_random_free(&rs);
@@ -142,7 +156,7 @@ int main(int argc, char **argv)
             for (int i = 0; i < NOPS; ++i) {
                 op_t *o = &plan[t][i];
                 o->kind = (uint8_t)rng_below(&r, NKINDS); o->mlen = (uint16_t)pick_len(&r, 8, 180); o->adlen = (uint16_t)pick_len(&r, 8, 60); o->off = (uint8_t)rng_below(&r, 20);
-                if (o->kind >= 3 && o->kind <= 5 && o->mlen > 64) o->mlen = 64;
+                if (((o->kind >= 3 && o->kind <= 5) || (o->kind >= 17 && o->kind <= 19)) && o->mlen > 64) o->mlen = 64;
                 do_op(o, expect[t][i], t);       /* sequential result */
             }
         yield_seed = rng_u64(&r);
@@ -152,7 +166,7 @@ int main(int argc, char **argv)
         pthread_barrier_destroy(&bar);
         for (int t = 0; t < T; ++t)
             for (int i = 0; i < NOPS; ++i)
-                if (plan[t][i].off == 255 && plan[t][i].kind != 15) {
+                if (plan[t][i].off == 255 && plan[t][i].kind != NKINDS - 1) {
                     char key[64];
                     snprintf(key, sizeof(key), "mt:result-differs-from-sequential:kind%d", plan[t][i].kind);
                     vf_violation("C16", key, "\"threads\":%d,\"thread\":%d,\"op\":%d,\"mlen\":%u,\"adlen\":%u", T, t, i, plan[t][i].mlen, plan[t][i].adlen);
